@@ -40,7 +40,14 @@ RULE = ("files are rendered from a cell grammar {empty, plain, leading/trailing 
         "validation modes, 1-4 columns, 0-90 rows, cells quoted / blank-led at random, chunk_row_size = smallest supported, +1, "
         "+0..30 or one window, include/exclude lists, columns missing from the schema, schema given as importer-definition "
         "dictionary or as JSON schema file, 80% of the cases with acceptable cells only; plus a seed-independent family in which "
-        "windows of empty records fill the index buffer before a long typed cell doubles its value budget. The driver op also compares the full flag of every kernel call. Non-trivial = the model made more than one kernel call, "
+        "windows of empty records fill the index buffer before a long typed cell doubles its value budget; plus the stratified "
+        "rejected-cell family (typed_reject_cases, seed independent): a typed column beside a one-byte fixed-string column whose "
+        "long cell in row 3 forces a regrowth, a cell of class {empty, unparseable, out of dtype range, impossible date} in every "
+        "row 0..5 in turn x {bool, int8, uint16, float64} x {strict, allow_empty, relaxed} and datetime / date x chunk_row_size "
+        "{smallest supported, +1, (+3 thorough), one window} - every rejecting combination is measured in the three strata first "
+        "row of the file / last row of a kernel block / first row after a regrowth (reject-stratum:* in the distribution), the "
+        "accepting combinations must import with the flag cleared - and two-column files with two rejected cells of different "
+        "exception classes, earlier row in the later column, both column orders, smallest chunk_row_size and one window. The driver op also compares the full flag of every kernel call. Non-trivial = the model made more than one kernel call, "
         "or the file has a quoted cell or a blank-led cell; distinct = distinct case line.")
 ASSUMPTIONS = [
     "supported regime of the property: every record (and the header line) fits in the byte window 2*chunk_row_size*columns; "
@@ -73,7 +80,12 @@ LEVEL_TEXT = ("Kernel-checked theorems, for all well-formed files of any size, a
               "chunk_row_size of the regime and every regrowth the public entry point returns, for every selected column, C06's "
               "specification applied to the WHOLE column of cell texts (read_csv_typed_eq_spec: typed import = C06.spec o "
               "C05.spec), every companion with exactly one entry per record (typed_companions_aligned), provided no selected "
-              "cell is rejected by its importer's validation mode.")
+              "cell is rejected by its importer's validation mode; (5) if some selected cell IS rejected, the public entry "
+              "point raises for every chunk_row_size of the regime, every starting budgets >= 1 and the same fuel "
+              "(read_csv_typed_raises, read_file_typed_raises; typed_raise_chunk_size_unobservable: two chunk sizes both "
+              "succeed with equal output or both raise), and the error is what the importer raises on the first rejected "
+              "cell - index_map order, then row order - of the first kernel block that holds one (Reported), of the class "
+              "typed_reject_error_class gives per importer kind.")
 LEVEL_NOTE = ("window_chunking_unobservable, regrowth_unobservable, chunk_size_unobservable and read_csv_eq_spec are proved at full "
               "strength (hypotheses: well-formed RFC-4180 table with a header line, chunk_row_size > 0, every line fits the byte window "
               "2*chunk_row_size*columns; for the driver-level theorems additionally every starting value budget >= 1, which "
@@ -88,10 +100,15 @@ LEVEL_NOTE = ("window_chunking_unobservable, regrowth_unobservable, chunk_size_u
               "importer definitions (distinct category keys; the number parser rejects blank text and converts str(invalid_value) "
               "to invalid_value; parsers are data: modelled int() with a dtype range, or a finite text->value table for floats) "
               "and that every selected cell is acceptable to its importer (cellOK, decided per cell). When a cell is rejected "
-              "only the importer-level half is proved (read_csv_typed_raises_partial: import_part on any block holding a "
-              "rejected cell raises); the lift to the driver loop is open - whether the import raises does not depend on chunk "
-              "boundaries, which of several rejected cells is reported does (first kernel call, then index_map order); the "
-              "correspondence compares the error class on every csv_typed case with a rejected cell. To state the composition "
+              "read_csv_typed_raises holds at the public entry point (the importer-level read_csv_typed_raises_partial is "
+              "kept): the driver invariant DI extended by 'no rejected cell consumed so far' (DIC, Lemmas/CsvRaise.lean), "
+              "one iteration split at the importers into ok- and error-continuation (driver_step_split), importers that "
+              "reject (ImpRej: import_part on a block returns rejErr of the block's first rejected cell). Whether the "
+              "import raises does not depend on chunk boundaries; which of several rejected cells is reported does (first "
+              "kernel block, then index_map order, then row order) - hence also the exception class when the rejected "
+              "cells differ in class (example in Props/C0506.lean). The correspondence compares the error class of model "
+              "and code AND the reported column / cell text with the prediction 'first rejected cell of the first block' "
+              "computed from the model's kernel-block trace, on every csv_typed case that raises. To state the composition "
               "the kernel lemma now also exports that the reported entries stay strictly inside each column's value budget "
               "(KernelRes.caps), which is what the leaky importer's free-text staging array of that size needs.")
 TECHNIQUE = "Lean 4 theorems over an executable model + differential correspondence with the real code"
